@@ -67,7 +67,8 @@ class Sim(object):
         self.plan_ops = []     # recorded plan (gen mode)
         self.plan_tasks = None
         self.cur = None
-        self.S = [0, BUDGET, 0, NOCALL]   # [line steps, next step point, pymeeus function entries, next call point]
+        self.S = [0, BUDGET, 0, NOCALL]   # [line steps, next step point, boundary events (entries into and returns
+        #                                    from pymeeus functions), next boundary point]
         self.tracer = self._make_tracer(self.S, None)
         self.sched_keys = set()
         self.point_lines = set()
@@ -102,6 +103,12 @@ class Sim(object):
                 S[0] += 1
                 if S[0] >= S[1]:
                     sim.on_point(frame, S, task)
+            elif event == 'return':
+                # a boundary event: a pymeeus function is about to return; a boundary-indexed point fires at
+                # the next line executed (normally the caller's next statement)
+                S[2] += 1
+                if S[2] >= S[3]:
+                    S[1] = S[0] + 1
             return local
 
         def tracer(frame, event, arg):
@@ -129,7 +136,7 @@ class Sim(object):
         ctx = self.cur if task is None else self.tcur[task]
         cps = ctx.op.get('cpoints') or []
         if ctx.cidx < len(cps) and S[2] >= S[3] and not ctx.cancel_kind:
-            # call-indexed point (located by the k-th entry into a pymeeus function)
+            # boundary-indexed point (located by the k-th entry into / return from a pymeeus function)
             pt = cps[ctx.cidx]
             ctx.cidx += 1
             self._arm(ctx, S)
